@@ -75,6 +75,12 @@ PROGRAMS = {
     'indep_priors': [Spec('b', 'Prior'), Spec('a', 'Prior'), Spec('c', 'Prior'), Spec('sim', 'Simulator', ['b', 'a', 'c'], observed=True)],
     'fork_sims': [Spec('t', 'Prior'), Spec('y', 'Simulator', ['t'], observed=True), Spec('x', 'Simulator', ['t'], observed=True),
                   Spec('s', 'Summary', ['x', 'y'])],
+    # a discrepancy used as input of another discrepancy / of a summary
+    'disc_of_disc_stochastic': [Spec('t', 'Prior'), Spec('sim', 'Simulator', ['t'], observed=True), Spec('s', 'Summary', ['sim']),
+                                Spec('d1', 'Discrepancy', ['s']), Spec('d2', 'Discrepancy', ['d1', 's'])],
+    'disc_of_disc_deterministic': [Spec('k', 'Constant'), Spec('o', 'Operation', ['k']), Spec('s', 'Summary', ['o'], observed=True),
+                                   Spec('d1', 'Discrepancy', ['s']), Spec('d2', 'Discrepancy', ['d1', 's']),
+                                   Spec('s2', 'Summary', ['d1', 's'])],
     # the same parent connected twice to one child (known finding: DiGraph keeps one edge per pair)
     'dup_parent': [Spec('a', 'Prior'), Spec('o', 'Operation', ['a', 'a'])],
     'dup_parent_named': [Spec('k', 'Constant'), Spec('a', 'Prior'), Spec('o', 'Operation', ['a', 'k'], {'w': 'k'})],
@@ -207,12 +213,9 @@ class Built:
             """observed twin (for observable nodes); other nodes stand for themselves."""
             s = self.specs[name]
             if not s.observable:
-                if s.stochastic:
-                    raise Reject('observed data depends on stochastic node %s' % name)
-                if s.kind in ('Operation',):
-                    # a deterministic non-observable node is shared between the simulated and the observed side
-                    for p in s.pos + list(s.named.values()):
-                        check_det(p)
+                # a non-observable node stands for itself on the observed side: its (simulated) value must not
+                # depend on any stochastic node
+                check_det(name)
                 return v(name)
             if name in twin:
                 return twin[name]
